@@ -722,7 +722,7 @@ func run(r *mc.Run) {
 	r.Assume("a name pattern has path/filepath.Match semantics over the whole name (a pattern without wildcard matches only that name)")
 	var units []unit
 	if r.Quick() {
-		units = []unit{{"leveldb", "/d"}, {"leveldb2", "/d"}, {"leveldb3", "/buckets/b1/d"}, {"leveldb3", "/buckets/b1"}, {"memstore-noprefix", "/d"}}
+		units = []unit{{"leveldb", "/d"}, {"leveldb2", "/d"}, {"leveldb3", "/buckets/b1"}, {"memstore-noprefix", "/d"}}
 	} else {
 		for _, k := range flib.StoreKinds {
 			for _, d := range []string{"/d", "/buckets/b1", "/buckets/b1/d"} {
